@@ -36,6 +36,11 @@ def mask_hex(k):
     return b.hex()
 
 
+# values / images the generators avoid (the serialisation changes shape there; out of scope of C15)
+AVOID_VALUES = {("DHCPv6", "msg_type"): {"12", "13"}}          # relay-forward / relay-reply: different header layout
+FIX_IMAGE = {"DHCPv6": lambda h: ("01" + h[2:]) if h[:2] in ("0c", "0d") else h}
+
+
 def rand_image(rng, L, default):
     t = rng.random()
     if t < 0.08:
@@ -96,7 +101,8 @@ def gen_ops(g, rng, tier, only=None):
         pools = {}
         for r in rw:
             dom = args[(cname, r["fld"])][0]
-            pools[r["fld"]] = value_pool(rng, r, dom, exhaustive_bits, nrand)
+            pools[r["fld"]] = [v for v in value_pool(rng, r, dom, exhaustive_bits, nrand)
+                               if v not in AVOID_VALUES.get((cname, r["fld"]), ())]
         # (0) every representable value of narrow fields (a sample for wide ones) from complementary prior images,
         #     so that each value is written over a field holding all-zeros, all-ones and random bits
         for r in rw:
@@ -110,6 +116,7 @@ def gen_ops(g, rng, tier, only=None):
                 else:
                     reps = sorted({0, 1, rep_max, rep_max - 1, rep_max // 2, rep_max // 2 + 1} | {rng.randint(0, rep_max) for _ in range(10)})
                     reps = [str(v) for v in reps]
+            reps = [v for v in reps if v not in AVOID_VALUES.get((cname, r["fld"]), ())]
             a = bytes(rng.randrange(256) for _ in range(L))
             for img in (a.hex(), bytes(x ^ 0xff for x in a).hex(), "00" * L, "ff" * L):
                 ops.append(f"init {cname} {img} {mh}")
@@ -132,7 +139,15 @@ def gen_ops(g, rng, tier, only=None):
             for _ in range(rng.randint(2, 14)):
                 r = rng.choice(rw)
                 ops.append(f"set {r['fld']} {rng.choice(pools[r['fld']])}")
-    return ops
+    fix = {c: f for c, f in FIX_IMAGE.items()}
+    out = []
+    for o in ops:
+        w = o.split(" ")
+        if w[0] == "init" and w[1] in fix:
+            w[2] = fix[w[1]](w[2])
+            o = " ".join(w)
+        out.append(o)
+    return out
 
 
 def classify(op, impl):
@@ -223,6 +238,7 @@ def run(chk):
         "the object carries a 3-byte RawPDU payload (no payload for SNAP) so that next-protocol fields are not derived",
         "derived runs (lengths, checksums, header-length nibbles; Spec.classes) are masked out of the serialisation comparison",
         "enum-typed setters are exercised with values of the field's width only",
+        "DHCPv6: relay message types 12/13 (different header layout) are not generated",
     ]
     chk.trusted += ["translator/gen_layout.py (accessor recognition by regex; layout probe compiled against the current headers)",
                     "generated harness harness/c15_fields.cpp + generators in checks/C15.py",
@@ -235,7 +251,8 @@ def replay(path):
     ok, text = core.lake_build(["tinsdriver"])
     ops = [l.rstrip("\n") for l in open(path) if not l.startswith("#") and l.strip()]
     impl, mod, spec, faults = corr.evaluate(AREA, exe, ops, ("init",))
-    bad = corr.first_problem(ops, impl, mod, spec)
+    has_model = not any(l == "unmodelled" for l in mod)          # oracle-only class: no model lines to compare
+    bad = corr.first_problem(ops, impl, mod if has_model else None, spec)
     for o, a, b, c in zip(ops, impl, mod, spec):
         print(o[:200]); print("  impl :", a[:400]); print("  model:", b[:400]); print("  spec :", c)
     if bad:
